@@ -114,6 +114,93 @@ fn generate(rng: &mut Rng) -> ConnScenario {
     }
 }
 
+/// Back-pressure mode: a client that never echoes, routing that takes at least three periods, and a
+/// transport that holds the first Keep Alive back (entirely, or after a few bytes) for a while or until
+/// the back-end call that is running at that moment completes - so the future that sends the Keep
+/// Alive is dropped in the middle of its write.
+fn generate_backpressure(rng: &mut Rng) -> ConnScenario {
+    use crate::pipe::WRule;
+    let mut sc = generate(rng);
+    let c = &mut sc.client;
+    c.ka_default = KaPolicy::Never;
+    c.ka.clear();
+    c.extras.clear();
+    c.early_ack = false;
+    c.coalesce = false;
+    c.login_think_ns.clear();
+    c.ack_delay_ns = 0;
+    c.info_delay_ns = *rng.pick(&[0u64, secs(3) + OFF_INFO, secs(20) + OFF_INFO]);
+    sc.services.auth.default.lat_ns = Some(0);
+    // three services, one of them long; the others end somewhere inside the first periods
+    let mut lats = [secs(rng.range(0, 30)) + OFF_DISC, secs(rng.range(0, 30)) + OFF_FILT, secs(rng.range(0, 30)) + OFF_STRAT];
+    let long = rng.usize_below(3);
+    lats[long] += secs(70);
+    sc.services.discovery.default.lat_ns = Some(lats[0]);
+    sc.services.filter.default.lat_ns = Some(lats[1]);
+    sc.services.strategy.default.lat_ns = Some(lats[2]);
+    // learn from the undisturbed execution which write call carries the first Keep Alive and what completes next
+    let refo = run_conn(&sc);
+    let Some(ki) = refo.view.packets.iter().position(|p| p.kind == "KeepAlive") else { return sc };
+    let off: usize = refo.view.packets[..ki].iter().map(|p| p.len + crate::codec::varint(p.len as i32).len()).sum();
+    let (mut acc, mut call) = (0usize, 0usize);
+    for (_, chunk) in &refo.pipe.out {
+        if acc + chunk.len() > off {
+            break;
+        }
+        acc += chunk.len();
+        call += 1;
+    }
+    for _ in 0..call {
+        sc.wplan.push(WRule::Accept { max: 1_000_000 });
+    }
+    if rng.chance(1, 2) {
+        sc.wplan.push(WRule::Accept { max: rng.range(1, 9) as usize });
+    }
+    let t_ka = refo.view.packets[ki].t_ns;
+    let next_done = ["discovery", "filter", "strategy"].iter().filter_map(|n| refo.log.iter().find(|e| e.actor == format!("svc:{n}") && e.kind == "done").map(|e| (format!("{n}_done"), e.t_ns))).filter(|(_, t)| *t > t_ka && *t - t_ka < secs(10)).min_by_key(|(_, t)| *t);
+    match next_done {
+        Some((name, _)) if rng.chance(3, 4) => sc.wplan.push(WRule::PendEvent { name, ns: *rng.pick(&[0u64, 1_000_000, 700_000_000]) }),
+        _ => sc.wplan.push(WRule::Pend { ns: ms(rng.range(1, 4000)) }),
+    }
+    sc
+}
+
+/// Oracle of the back-pressure mode: counts and order only (the client's receive times are not the
+/// server's write times here).
+fn check_backpressure(sc: &ConnScenario, out: &ConnOutcome, rep: &mut RunReport) {
+    if !out.panics.is_empty() {
+        rep.violate("no_panic", format!("handler panicked: {}", out.panics[0]));
+        return;
+    }
+    if let Some(u) = &out.view.undecodable {
+        rep.violate("stream_decodes", u.clone());
+        return;
+    }
+    let kas = out.view.all("KeepAlive");
+    if kas.len() > 1 {
+        rep.violate("second_keep_alive_while_outstanding", format!("the client never echoed, yet it was sent {} Keep Alives (at {:?} ns)", kas.len(), kas.iter().map(|p| p.t_ns).collect::<Vec<_>>()));
+    }
+    let Some(first) = kas.first() else { return };
+    let held = out.pipe.write_blocked_total_ns;
+    // routing takes at least 70 s from Client Information on, the unanswered Keep Alive is due 16 s after it was written
+    let timeout = out.view.packets.iter().find(|p| p.kind == "Disconnect" && is_timeout_disconnect(&p.fields["reason"]));
+    match timeout {
+        None => rep.violate("silent_client_is_timed_out", format!("Keep Alive received at {} ns was never echoed and routing takes more than 70 s, but no timeout Disconnect arrived: result {} {} packets {:?}", first.t_ns, out.result, out.result_text, out.view.kinds())),
+        Some(d) => {
+            if d.t_ns > first.t_ns + PERIOD + held + secs(1) {
+                rep.violate("silent_client_is_timed_out", format!("Keep Alive received at {} ns, timeout Disconnect only at {} ns (writes were held back {} ns in total)", first.t_ns, d.t_ns, held));
+            }
+            if out.view.packets.last().map(|p| p.kind.as_str()) != Some("Disconnect") || out.view.first("Transfer").is_some() {
+                rep.violate("nothing_after_timeout", format!("packets {:?}", out.view.kinds()));
+            }
+            if out.result != "MissedKeepAlive" {
+                rep.violate("timeout_result", format!("timeout Disconnect sent but listen() returned {} {}", out.result, out.result_text));
+            }
+        }
+    }
+    let _ = sc;
+}
+
 fn is_timeout_disconnect(reason: &Value) -> bool {
     reason == &json!({"text": "timeout-en"})
 }
@@ -290,11 +377,27 @@ impl Check for C07 {
             Tier::Thorough => 6_000_000,
         }
     }
-    fn generate(&self, rng: &mut Rng, _index: u64, _tier: Tier) -> ConnScenario {
-        generate(rng)
+    fn generate(&self, rng: &mut Rng, index: u64, _tier: Tier) -> ConnScenario {
+        if index % 6 == 5 { generate_backpressure(rng) } else { generate(rng) }
     }
     fn execute(&self, sc: &ConnScenario) -> RunReport {
-        if !conn_domain_ok(sc) || sc.cap_ns < secs(600) || sc.client.script.is_some() || !sc.client.mutations.is_empty() || !sc.client.cuts.is_empty() || !sc.wplan.is_empty() || sc.client.len_pad != 0 || (sc.client.coalesce && !sc.client.early_ack) || !matches!(sc.client.enc, crate::client::EncVariant::Honest) {
+        let backpressure = !sc.wplan.is_empty();
+        if backpressure {
+            // the back-pressure mode's own domain: a silent client, long routing, holds of a few seconds at most
+            use crate::pipe::WRule;
+            let c = &sc.client;
+            let s = &sc.services;
+            let l = |v: &Option<u64>| v.unwrap_or(0);
+            let hold: u64 = sc.wplan.iter().map(|w| match w { WRule::Pend { ns } => *ns, WRule::PendEvent { ns, .. } => secs(10) + *ns, _ => 0 }).sum();
+            if !matches!(c.ka_default, KaPolicy::Never) || !c.ka.is_empty() || !c.extras.is_empty() || c.early_ack || c.coalesce || !c.login_think_ns.is_empty() || !c.send_info || c.ack_delay_ns != 0
+                || sc.wplan.iter().any(|w| !matches!(w, WRule::Accept { .. } | WRule::Pend { .. } | WRule::PendEvent { .. })) || hold > secs(15)
+                || l(&s.discovery.default.lat_ns) + l(&s.filter.default.lat_ns) + l(&s.strategy.default.lat_ns) < secs(70) || s.auth.default.lat_ns != Some(0)
+                || [&s.discovery.default.lat_ns, &s.filter.default.lat_ns, &s.strategy.default.lat_ns].iter().any(|v| v.is_none())
+            {
+                return RunReport::default();
+            }
+        }
+        if !conn_domain_ok(sc) || sc.cap_ns < secs(600) || sc.client.script.is_some() || !sc.client.mutations.is_empty() || !sc.client.cuts.is_empty() || sc.client.len_pad != 0 || (sc.client.coalesce && !sc.client.early_ack) || !matches!(sc.client.enc, crate::client::EncVariant::Honest) {
             return RunReport::default();
         }
         // tie-freedom is part of the domain: every delay must keep its millisecond offset class
@@ -340,7 +443,15 @@ impl Check for C07 {
         if c.login_think_ns.iter().any(|t| *t >= PERIOD) {
             *rep.faults.entry("client_slow_in_login_phase_beyond_a_period".into()).or_insert(0) += 1;
         }
-        check(sc, &out, &mut rep);
+        if backpressure {
+            *rep.faults.entry("keep_alive_write_held_back".into()).or_insert(0) += 1;
+            if out.faults.contains_key("write_pending_event") {
+                *rep.probes.entry("keep_alive_write_pending_across_a_service_completion".into()).or_insert(0) += 1;
+            }
+            check_backpressure(sc, &out, &mut rep);
+        } else {
+            check(sc, &out, &mut rep);
+        }
         rep
     }
 }
